@@ -243,6 +243,8 @@ void profile_clone(const json& plan, Ctx& ctx) {
 	setStage("init");
 	if (!makeInitial(plan["init"], *S, ctx)) { ctx.info["rejected_init"] = true; ctx.probe("rejected_input"); return; }
 	ctx.sig.str(plan["init"].dump());
+	if (ctx.info.is_object() && ctx.info.contains("type_name_mismatch"))
+		ctx.viol("clone:block-registered-under-another-type", "a block of type " + ctx.info["type_name_mismatch"].get<std::string>() + ": the destination header of a clone (AddBlock) lists it as that other type");
 	std::string destKind = jstr(plan, "dest", "same");
 	std::unique_ptr<NifFile> Downed;
 	NifFile* D = S.get();
